@@ -2,9 +2,11 @@ package props
 
 import (
 	"fmt"
+	"math/big"
 	"strings"
 
 	compact_time "github.com/kstenerud/go-compact-time"
+	"github.com/kstenerud/go-concise-encoding/ce/events"
 	"pgregory.net/rapid"
 
 	"verif/internal/canon"
@@ -154,6 +156,17 @@ func genC03(t *rapid.T, ctx *Ctx) interface{} {
 			doc = []byte{0x81, 0x00, 0x9a, 0x01, 0x9b}
 		}
 	}
+	if rapid.IntRange(0, 9).Draw(t, "keyspellings") == 0 {
+		// a map / record type whose keys use every spelling either format offers (integer widths,
+		// big-integer forms with leading zero bytes, bases, separators, chunked strings, markers), colliding
+		// or not: the two decoders must agree on which of these documents are valid
+		if text {
+			doc = genC12Case(t, "cte").cteDoc()
+		} else {
+			doc = genC12Case(t, "cbe").cbeDoc()
+		}
+		c.Note = "key-spellings"
+	}
 	if rapid.IntRange(0, 3).Draw(t, "mutate") == 0 {
 		other, _, _ := encodeCBE(gen.Document(t, c03Opts(ctx, false)), cfg)
 		if text {
@@ -165,6 +178,154 @@ func genC03(t *rapid.T, ctx *Ctx) interface{} {
 	}
 	c.Doc = doc
 	return c
+}
+
+// c03Check is the oracle for one document.
+func c03Check(ci interface{}, ctx *Ctx) error {
+	c := ci.(*C03Case)
+	cfg := newCfg()
+	ctx.Label("side:" + c.Side)
+	ctx.LabelIf(strings.Contains(c.Note, "mutated"), "mutated")
+	ctx.LabelIf(strings.Contains(c.Note, "generator-rejected"), "generator-rejected")
+	ctx.LabelIf(strings.Contains(c.Note, "key-spellings"), "key-spellings")
+	doc := append([]byte{}, c.Doc...)
+	guard := func(what string, f func()) error {
+		o := ctx.Guard(f)
+		if o.TimedOut || o.Panic != nil {
+			return fmt.Errorf("%s: %v", what, o)
+		}
+		return nil
+	}
+	var e1 []ev.Event
+	var err error
+	if c.Side == "bin" {
+		// ---- CBE -> CTE -> CBE
+		if g := guard("CBE decoder", func() { e1, err = decodeCBE(doc, cfg) }); g != nil {
+			ctx.Hung, ctx.Abandoned = false, true // the first decoder hanging is C07's business
+			return nil
+		}
+		if err != nil {
+			ctx.Label("first-decoder-rejects")
+			return nil
+		}
+		ctx.Label("first-decoder-accepts")
+		for _, l := range c03WideFeatures(e1) {
+			ctx.Label(l)
+		}
+		if key := "S27-cbe-accepts-names-cte-cannot-spell"; findingOpen(key) && !ctx.Replaying {
+			if w := c03WideFeatures(e1); containsStr(w, "wide:media-type") || containsStr(w, "wide:area-location") {
+				ctx.Stats.Exclude(key)
+				return nil
+			}
+		}
+		if key := "S71-uleb128-coefficient-over-448-bits"; findingOpen(key) && !ctx.Replaying && c03HasHugeCoefficient(e1) {
+			ctx.Stats.Exclude(key)
+			return nil
+		}
+		ctx.NonTrivial(len(e1) >= 6)
+		var text []byte
+		var idx int
+		var eerr error
+		if g := guard("CTE encoder", func() { text, idx, eerr = encodeCTE(e1, cfg) }); g != nil {
+			return fmt.Errorf("%v\ncbe=%s", g, hexdump(c.Doc))
+		}
+		if idx >= 0 {
+			return fmt.Errorf("an accepted CBE document cannot be written as CTE: the CTE encoder (behind rules) failed at event %d (%v): %v\ncbe=%s", idx, e1[idx], eerr, hexdump(c.Doc))
+		}
+		var e2 []ev.Event
+		if g := guard("CTE decoder", func() { e2, err = decodeCTE(text, cfg) }); g != nil {
+			return fmt.Errorf("%v\ncbe=%s\ncte=%s", g, hexdump(c.Doc), textdump(text))
+		}
+		if err != nil {
+			return fmt.Errorf("the CTE written for an accepted CBE document is rejected by the CTE decoder + rules: %v\ncbe=%s\ncte=%s", err, hexdump(c.Doc), textdump(text))
+		}
+		t1, err := buildTree(e1, canon.Opts{DropPadding: true, DropComments: true})
+		if err != nil {
+			return fmt.Errorf("harness: decoded CBE events do not parse: %v\n%s", err, ev.ListString(e1))
+		}
+		t2, err := buildTree(e2, canon.Opts{DropPadding: true, DropComments: true})
+		if err != nil {
+			return fmt.Errorf("decoded CTE events are not a well-formed document: %v", err)
+		}
+		if d := canon.Diff(t1, t2, canon.EqOpts{FloatArrayNaNKind: true}); d != "" {
+			return fmt.Errorf("CBE -> CTE changed the data: %s\ncbe=%s\ncte=%s", d, hexdump(c.Doc), textdump(text))
+		}
+		var back []byte
+		if g := guard("CBE encoder", func() { back, idx, eerr = encodeCBE(e2, cfg) }); g != nil {
+			return g
+		}
+		if idx >= 0 {
+			return fmt.Errorf("the CTE form cannot be converted back to CBE: encoder failed at event %d (%v): %v\ncte=%s", idx, e2[idx], eerr, textdump(text))
+		}
+		var e3 []ev.Event
+		if g := guard("CBE decoder", func() { e3, err = decodeCBE(back, cfg) }); g != nil {
+			return g
+		}
+		if err != nil {
+			return fmt.Errorf("CBE -> CTE -> CBE: the final CBE document is rejected: %v\ncbe=%s\ncte=%s\ncbe2=%s", err, hexdump(c.Doc), textdump(text), hexdump(back))
+		}
+		t3, err := buildTree(e3, canon.Opts{DropPadding: true, DropComments: true})
+		if err != nil {
+			return fmt.Errorf("final CBE events are not a well-formed document: %v", err)
+		}
+		if d := canon.Diff(t1, t3, canon.EqOpts{FloatArrayNaNKind: true, TolBigFloat: true}); d != "" {
+			return fmt.Errorf("CBE -> CTE -> CBE changed the data: %s\ncbe=%s\ncte=%s\ncbe2=%s", d, hexdump(c.Doc), textdump(text), hexdump(back))
+		}
+		return nil
+	}
+	// ---- CTE -> CBE
+	if g := guard("CTE decoder", func() { e1, err = decodeCTE(doc, cfg) }); g != nil {
+		ctx.Hung, ctx.Abandoned = false, true
+		return nil
+	}
+	if err != nil {
+		ctx.Label("first-decoder-rejects")
+		return nil
+	}
+	for i := range e1 {
+		if e1[i].K == ev.CustomText || (e1[i].K == ev.CustomBegin && e1[i].AT == 4) {
+			ctx.Label("custom-text-skipped")
+			return nil
+		}
+	}
+	ctx.Label("first-decoder-accepts")
+	if key := "S71-uleb128-coefficient-over-448-bits"; findingOpen(key) && !ctx.Replaying && c03HasHugeCoefficient(e1) {
+		ctx.Stats.Exclude(key)
+		return nil
+	}
+	if findingOpen(s75) && !ctx.Replaying && c03HasExtremeBigFloat(e1) {
+		ctx.Stats.Exclude(s75)
+		return nil
+	}
+	ctx.NonTrivial(len(e1) >= 6)
+	var bin []byte
+	var idx int
+	var eerr error
+	if g := guard("CBE encoder", func() { bin, idx, eerr = encodeCBE(e1, cfg) }); g != nil {
+		return fmt.Errorf("%v\ncte=%s", g, textdump(c.Doc))
+	}
+	if idx >= 0 {
+		return fmt.Errorf("an accepted CTE document cannot be written as CBE: the CBE encoder (behind rules) failed at event %d (%v): %v\ncte=%s", idx, e1[idx], eerr, textdump(c.Doc))
+	}
+	var e2 []ev.Event
+	if g := guard("CBE decoder", func() { e2, err = decodeCBE(bin, cfg) }); g != nil {
+		return g
+	}
+	if err != nil {
+		return fmt.Errorf("the CBE written for an accepted CTE document is rejected by the CBE decoder + rules: %v\ncte=%s\ncbe=%s", err, textdump(c.Doc), hexdump(bin))
+	}
+	t1, err := buildTree(e1, canon.Opts{DropPadding: true, DropComments: true})
+	if err != nil {
+		return fmt.Errorf("harness: decoded CTE events do not parse: %v\n%s", err, ev.ListString(e1))
+	}
+	t2, err := buildTree(e2, canon.Opts{DropPadding: true, DropComments: true})
+	if err != nil {
+		return fmt.Errorf("decoded CBE events are not a well-formed document: %v", err)
+	}
+	if d := canon.Diff(t1, t2, canon.EqOpts{FloatArrayNaNKind: true, TolBigFloat: true}); d != "" {
+		return fmt.Errorf("CTE -> CBE changed the data: %s\ncte=%s\ncbe=%s", d, textdump(c.Doc), hexdump(bin))
+	}
+	return nil
 }
 
 func init() {
@@ -183,150 +344,120 @@ func init() {
 			return &C03Case{Side: side, Doc: append([]byte{}, data...), Note: "native-fuzz"}
 		},
 		FuzzSeeds: func() [][]byte { return fuzzSeedDocs(0) },
-		Check: func(ci interface{}, ctx *Ctx) error {
-			c := ci.(*C03Case)
-			cfg := newCfg()
-			ctx.Label("side:" + c.Side)
-			ctx.LabelIf(strings.Contains(c.Note, "mutated"), "mutated")
-			ctx.LabelIf(strings.Contains(c.Note, "generator-rejected"), "generator-rejected")
-			doc := append([]byte{}, c.Doc...)
-			guard := func(what string, f func()) error {
-				o := ctx.Guard(f)
-				if o.TimedOut || o.Panic != nil {
-					return fmt.Errorf("%s: %v", what, o)
-				}
-				return nil
+		Fixed:     c03LengthSweep,
+		Check:     c03Check,
+	})
+}
+
+// c03LengthSweep is the deterministic part: every length-carrying item at every length around the sizes
+// at which either encoder switches form or grows its buffer (0..130 bytes / elements; 1..127 for the
+// items whose length is limited to 127), each followed by a small integer so that a length that is off by
+// one shows as a changed neighbour. Both directions, every shard takes its share.
+func c03LengthSweep(ctx *Ctx, report func(c interface{}, err error)) {
+	type family struct {
+		name     string
+		min, max int
+		item     func(n int) []ev.Event
+	}
+	rep := func(n int, s string) []byte { return []byte(strings.Repeat(s, n)) }
+	name := func(n int) string { return "A" + strings.Repeat("b", n-1) }
+	tm := func(t compact_time.Time) []ev.Event { return []ev.Event{{K: ev.Time, T: t}} }
+	fams := []family{
+		{"string", 0, 130, func(n int) []ev.Event {
+			return []ev.Event{{K: ev.Array, AT: events.ArrayTypeString, U: uint64(n), Bs: rep(n, "s")}}
+		}},
+		{"resource-id", 0, 130, func(n int) []ev.Event {
+			return []ev.Event{{K: ev.Array, AT: events.ArrayTypeResourceID, U: uint64(n), Bs: rep(n, "r")}}
+		}},
+		{"uint8-array", 0, 130, func(n int) []ev.Event {
+			return []ev.Event{{K: ev.Array, AT: events.ArrayTypeUint8, U: uint64(n), Bs: rep(n, "\x07")}}
+		}},
+		{"uint16-array", 0, 70, func(n int) []ev.Event {
+			return []ev.Event{{K: ev.Array, AT: events.ArrayTypeUint16, U: uint64(n), Bs: rep(2*n, "\x07")}}
+		}},
+		{"float64-array", 0, 40, func(n int) []ev.Event {
+			return []ev.Event{{K: ev.Array, AT: events.ArrayTypeFloat64, U: uint64(n), Bs: rep(8*n, "\x01")}}
+		}},
+		{"bit-array", 0, 130, func(n int) []ev.Event {
+			return []ev.Event{{K: ev.Array, AT: events.ArrayTypeBit, U: uint64(n), Bs: make([]byte, (n+7)/8)}}
+		}},
+		{"custom-binary", 0, 130, func(n int) []ev.Event { return []ev.Event{{K: ev.CustomBinary, U: 5, Bs: rep(n, "\x09")}} }},
+		{"media", 0, 130, func(n int) []ev.Event { return []ev.Event{{K: ev.Media, S: "a/b", Bs: rep(n, "\x09")}} }},
+		{"media-type", 3, 127, func(n int) []ev.Event {
+			return []ev.Event{{K: ev.Media, S: "a/" + strings.Repeat("b", n-2), Bs: []byte{1, 2}}}
+		}},
+		{"marker-id", 1, 127, func(n int) []ev.Event { return []ev.Event{{K: ev.Marker, Bs: []byte(name(n))}, {K: ev.Int, I: 1}} }},
+		{"big-int-bytes", 1, 70, func(n int) []ev.Event {
+			return []ev.Event{{K: ev.BigInt, Big: new(big.Int).Lsh(big.NewInt(0x81), uint(8*(n-1)))}}
+		}},
+		{"negative-big-int-bytes", 1, 70, func(n int) []ev.Event {
+			return []ev.Event{{K: ev.BigInt, Big: new(big.Int).Neg(new(big.Int).Lsh(big.NewInt(0x81), uint(8*(n-1))))}}
+		}},
+		{"time-zone/time", 1, 127, func(n int) []ev.Event {
+			return tm(compact_time.NewTime(10, 0, 0, 0, compact_time.TZAtAreaLocation(name(n))))
+		}},
+		{"time-zone/time-ns", 1, 127, func(n int) []ev.Event {
+			return tm(compact_time.NewTime(10, 0, 0, 123456789, compact_time.TZAtAreaLocation(name(n))))
+		}},
+		{"time-zone/timestamp", 1, 127, func(n int) []ev.Event {
+			return tm(compact_time.NewTimestamp(2020, 1, 1, 10, 0, 0, 0, compact_time.TZAtAreaLocation(name(n))))
+		}},
+		{"time-zone/timestamp-ms", 1, 127, func(n int) []ev.Event {
+			return tm(compact_time.NewTimestamp(2020, 1, 1, 10, 0, 0, 123000000, compact_time.TZAtAreaLocation(name(n))))
+		}},
+		{"time-zone/timestamp-us", 1, 127, func(n int) []ev.Event {
+			return tm(compact_time.NewTimestamp(2020, 1, 1, 10, 0, 0, 123456000, compact_time.TZAtAreaLocation(name(n))))
+		}},
+		{"time-zone/timestamp-ns", 1, 127, func(n int) []ev.Event {
+			return tm(compact_time.NewTimestamp(2020, 1, 1, 10, 0, 0, 123456789, compact_time.TZAtAreaLocation(name(n))))
+		}},
+		{"time-zone/timestamp-far-year", 1, 127, func(n int) []ev.Event {
+			return tm(compact_time.NewTimestamp(-500000, 12, 31, 23, 59, 59, 1, compact_time.TZAtAreaLocation(name(n))))
+		}},
+	}
+	cfg := newCfg()
+	var evals, nontrivial int64
+	k := 0
+	for fi := range fams {
+		f := &fams[fi]
+		for n := f.min; n <= f.max; n++ {
+			k++
+			if k%ctx.Shards != ctx.Shard {
+				continue
 			}
-			var e1 []ev.Event
-			var err error
-			if c.Side == "bin" {
-				// ---- CBE -> CTE -> CBE
-				if g := guard("CBE decoder", func() { e1, err = decodeCBE(doc, cfg) }); g != nil {
-					ctx.Hung, ctx.Abandoned = false, true // the first decoder hanging is C07's business
-					return nil
+			for _, before := range []int{0, 1, 3} { // items in front of it: the encoder's buffer has grown already or not
+				evs := []ev.Event{{K: ev.BD}, {K: ev.Version}, {K: ev.List}}
+				for b := 0; b < before; b++ {
+					evs = append(evs, ev.Event{K: ev.Array, AT: events.ArrayTypeString, U: 20, Bs: rep(20, "p")})
 				}
-				if err != nil {
-					ctx.Label("first-decoder-rejects")
-					return nil
-				}
-				ctx.Label("first-decoder-accepts")
-				for _, l := range c03WideFeatures(e1) {
-					ctx.Label(l)
-				}
-				if key := "S27-cbe-accepts-names-cte-cannot-spell"; findingOpen(key) && !ctx.Replaying {
-					if w := c03WideFeatures(e1); containsStr(w, "wide:media-type") || containsStr(w, "wide:area-location") {
-						ctx.Stats.Exclude(key)
-						return nil
+				evs = append(evs, f.item(n)...)
+				evs = append(evs, ev.Event{K: ev.Int, I: 0x41}, ev.Event{K: ev.End}, ev.Event{K: ev.ED})
+				for _, side := range []string{"bin", "text"} {
+					var doc []byte
+					var idx int
+					if side == "bin" {
+						doc, idx, _ = encodeCBE(evs, cfg)
+					} else {
+						doc, idx, _ = encodeCTE(evs, cfg)
+					}
+					if idx >= 0 {
+						ctx.Stats.Count("sweep_item_rejected_by_validator:"+f.name, 1)
+						continue
+					}
+					c := &C03Case{Side: side, Doc: doc, Note: fmt.Sprintf("length-sweep %s n=%d after %d items", f.name, n, before)}
+					evals++
+					nontrivial++
+					if err := c03Check(c, ctx); err != nil {
+						report(c, err)
+						return
+					}
+					if ctx.Hung || ctx.Abandoned {
+						return
 					}
 				}
-				if key := "S71-uleb128-coefficient-over-448-bits"; findingOpen(key) && !ctx.Replaying && c03HasHugeCoefficient(e1) {
-					ctx.Stats.Exclude(key)
-					return nil
-				}
-				ctx.NonTrivial(len(e1) >= 6)
-				var text []byte
-				var idx int
-				var eerr error
-				if g := guard("CTE encoder", func() { text, idx, eerr = encodeCTE(e1, cfg) }); g != nil {
-					return fmt.Errorf("%v\ncbe=%s", g, hexdump(c.Doc))
-				}
-				if idx >= 0 {
-					return fmt.Errorf("an accepted CBE document cannot be written as CTE: the CTE encoder (behind rules) failed at event %d (%v): %v\ncbe=%s", idx, e1[idx], eerr, hexdump(c.Doc))
-				}
-				var e2 []ev.Event
-				if g := guard("CTE decoder", func() { e2, err = decodeCTE(text, cfg) }); g != nil {
-					return fmt.Errorf("%v\ncbe=%s\ncte=%s", g, hexdump(c.Doc), textdump(text))
-				}
-				if err != nil {
-					return fmt.Errorf("the CTE written for an accepted CBE document is rejected by the CTE decoder + rules: %v\ncbe=%s\ncte=%s", err, hexdump(c.Doc), textdump(text))
-				}
-				t1, err := buildTree(e1, canon.Opts{DropPadding: true, DropComments: true})
-				if err != nil {
-					return fmt.Errorf("harness: decoded CBE events do not parse: %v\n%s", err, ev.ListString(e1))
-				}
-				t2, err := buildTree(e2, canon.Opts{DropPadding: true, DropComments: true})
-				if err != nil {
-					return fmt.Errorf("decoded CTE events are not a well-formed document: %v", err)
-				}
-				if d := canon.Diff(t1, t2, canon.EqOpts{FloatArrayNaNKind: true}); d != "" {
-					return fmt.Errorf("CBE -> CTE changed the data: %s\ncbe=%s\ncte=%s", d, hexdump(c.Doc), textdump(text))
-				}
-				var back []byte
-				if g := guard("CBE encoder", func() { back, idx, eerr = encodeCBE(e2, cfg) }); g != nil {
-					return g
-				}
-				if idx >= 0 {
-					return fmt.Errorf("the CTE form cannot be converted back to CBE: encoder failed at event %d (%v): %v\ncte=%s", idx, e2[idx], eerr, textdump(text))
-				}
-				var e3 []ev.Event
-				if g := guard("CBE decoder", func() { e3, err = decodeCBE(back, cfg) }); g != nil {
-					return g
-				}
-				if err != nil {
-					return fmt.Errorf("CBE -> CTE -> CBE: the final CBE document is rejected: %v\ncbe=%s\ncte=%s\ncbe2=%s", err, hexdump(c.Doc), textdump(text), hexdump(back))
-				}
-				t3, err := buildTree(e3, canon.Opts{DropPadding: true, DropComments: true})
-				if err != nil {
-					return fmt.Errorf("final CBE events are not a well-formed document: %v", err)
-				}
-				if d := canon.Diff(t1, t3, canon.EqOpts{FloatArrayNaNKind: true, TolBigFloat: true}); d != "" {
-					return fmt.Errorf("CBE -> CTE -> CBE changed the data: %s\ncbe=%s\ncte=%s\ncbe2=%s", d, hexdump(c.Doc), textdump(text), hexdump(back))
-				}
-				return nil
 			}
-			// ---- CTE -> CBE
-			if g := guard("CTE decoder", func() { e1, err = decodeCTE(doc, cfg) }); g != nil {
-				ctx.Hung, ctx.Abandoned = false, true
-				return nil
-			}
-			if err != nil {
-				ctx.Label("first-decoder-rejects")
-				return nil
-			}
-			for i := range e1 {
-				if e1[i].K == ev.CustomText || (e1[i].K == ev.CustomBegin && e1[i].AT == 4) {
-					ctx.Label("custom-text-skipped")
-					return nil
-				}
-			}
-			ctx.Label("first-decoder-accepts")
-			if key := "S71-uleb128-coefficient-over-448-bits"; findingOpen(key) && !ctx.Replaying && c03HasHugeCoefficient(e1) {
-				ctx.Stats.Exclude(key)
-				return nil
-			}
-			if findingOpen(s75) && !ctx.Replaying && c03HasExtremeBigFloat(e1) {
-				ctx.Stats.Exclude(s75)
-				return nil
-			}
-			ctx.NonTrivial(len(e1) >= 6)
-			var bin []byte
-			var idx int
-			var eerr error
-			if g := guard("CBE encoder", func() { bin, idx, eerr = encodeCBE(e1, cfg) }); g != nil {
-				return fmt.Errorf("%v\ncte=%s", g, textdump(c.Doc))
-			}
-			if idx >= 0 {
-				return fmt.Errorf("an accepted CTE document cannot be written as CBE: the CBE encoder (behind rules) failed at event %d (%v): %v\ncte=%s", idx, e1[idx], eerr, textdump(c.Doc))
-			}
-			var e2 []ev.Event
-			if g := guard("CBE decoder", func() { e2, err = decodeCBE(bin, cfg) }); g != nil {
-				return g
-			}
-			if err != nil {
-				return fmt.Errorf("the CBE written for an accepted CTE document is rejected by the CBE decoder + rules: %v\ncte=%s\ncbe=%s", err, textdump(c.Doc), hexdump(bin))
-			}
-			t1, err := buildTree(e1, canon.Opts{DropPadding: true, DropComments: true})
-			if err != nil {
-				return fmt.Errorf("harness: decoded CTE events do not parse: %v\n%s", err, ev.ListString(e1))
-			}
-			t2, err := buildTree(e2, canon.Opts{DropPadding: true, DropComments: true})
-			if err != nil {
-				return fmt.Errorf("decoded CBE events are not a well-formed document: %v", err)
-			}
-			if d := canon.Diff(t1, t2, canon.EqOpts{FloatArrayNaNKind: true, TolBigFloat: true}); d != "" {
-				return fmt.Errorf("CTE -> CBE changed the data: %s\ncte=%s\ncbe=%s", d, textdump(c.Doc), hexdump(bin))
-			}
-			return nil
-		},
-	})
+		}
+	}
+	ctx.Stats.Bulk(evals, nontrivial)
+	ctx.Stats.Note(fmt.Sprintf("length sweep: %d families x every length in their range x 3 positions x 2 directions (shard %d/%d)", len(fams), ctx.Shard, ctx.Shards))
 }
